@@ -51,7 +51,7 @@ def mk_vam(sid, cluster_id=None, card=2, join=None, leave=None, breakup=None, la
 ALPHABET = [
     ("role_off",), ("role_on",), ("create_enough",), ("create_few",), ("join", 7), ("join", 0), ("cancel",), ("leave", "safetyCondition"), ("leave", "notProvided"),
     ("breakup", "clusteringPurposeCompleted"), ("breakup", "notProvided"),
-    ("rx_plain", LEADER), ("rx_plain", OTHER), ("rx_cluster", LEADER, 7), ("rx_cluster", OTHER, 8), ("rx_cluster", OTHER, 7), ("rx_join_own",), ("rx_leave_own",),
+    ("rx_plain", LEADER), ("rx_plain", OTHER), ("rx_cluster", LEADER, 7), ("rx_cluster", OTHER, 8), ("rx_cluster", OTHER, 7), ("rx_cluster", OTHER, 77), ("rx_join_own",), ("rx_leave_own",),
     ("rx_breakup", LEADER, "clusterDisbandedByLeader"), ("rx_breakup", OTHER, "notProvided"), ("update",),
     ("step", 0.05), ("step", 0.5), ("step", 1.0), ("step", 2.0), ("step", 3.1),
 ]
@@ -68,7 +68,7 @@ class Harness:
         self.vc = vc
         self.now = 1000.0
         self._saved_random = vc.random
-        vc.random = types.SimpleNamespace(randint=lambda a, b: 77)
+        vc.random = types.SimpleNamespace(randint=lambda a, b: 77)      # the identifier every draw proposes; ("rx_cluster", OTHER, 77) makes it taken: no free identifier
         self.m = VBSClusteringManager(own_station_id=11, time_fn=lambda: self.now)
         self.join_t = None          # time initiate_join succeeded (cleared when the join ends)
         self.leave_t = None         # time the station went passive -> stand-alone
